@@ -95,7 +95,8 @@ class DataKindsForce(Suite):
         old = os.getcwd()
         try:
             os.chdir(tmp)
-            state = dict(run=1, runs=0, fault=None, bad=None, empty=False, big=False)
+            # the first result has more parts than the second (12 arrays / 230 items / an extra file, then 3 / 6 / none)
+            state = dict(run=1, runs=0, fault=None, bad=None, empty=False, big=True, extra=True)
             m = make_module(kind, state)
 
             def scenario():
@@ -110,6 +111,7 @@ class DataKindsForce(Suite):
                         out['v_loaded'] = describe_result(kind, t.value)
                 runs0 = state['runs']
                 state['run'] = 2
+                state['big'] = state['extra'] = False
                 try:
                     ch.force('c05:victim', delete_data=case['delete'])
                     out['force'] = 'ok'
@@ -167,6 +169,7 @@ class DataKindsForce(Suite):
 
 
 FAIL_SRC = '''
+from typing import Generator
 from taskchain import Task
 
 STATE = {'fail': False, 'runs': [], 'n': 0}
@@ -195,6 +198,14 @@ class C(Task):
     def run(self, b) -> dict:
         return {'v': _tick('c')}
 
+class G(Task):
+    def run(self) -> Generator:
+        v = _tick('g')
+        for i in range(3):
+            if STATE.get('fail_gen') and i == 1:
+                raise RuntimeError('generator body fails')
+            yield {'v': v, 'i': i}
+
 class U(Task):
     def run(self) -> dict:
         return {'v': _tick('u')}
@@ -210,7 +221,8 @@ class FailingRecompute(Suite):
     model = ''
 
     def gen(self, rng, tier):
-        return [dict(delete=d, recompute=r, names=n) for d in (True, False) for r in (True, False) for n in (['a'], ['b'], ['a', 'c'])]
+        return ([dict(delete=d, recompute=r, names=n) for d in (True, False) for r in (True, False) for n in (['a'], ['b'], ['a', 'c'])] +
+                [dict(generator=True, delete=d, via=v) for d in (True, False) for v in ('task', 'chain')])
 
     def run_impl(self, case):
         import sys, types
@@ -226,6 +238,25 @@ class FailingRecompute(Suite):
 
                 def chain():
                     return Config(Path('data'), name='c', data={'tasks': [f'{name}.*']}).chain()
+                if case.get('generator'):
+                    ch = chain()
+                    first = list(ch['g'].value)
+                    m.STATE['fail_gen'] = True
+                    (ch['g'].force(delete_data=case['delete']) if case['via'] == 'task' else ch.force('g', delete_data=case['delete']))
+                    try:
+                        _ = list(ch['g'].value)
+                        raised = None
+                    except Exception as e:
+                        raised = type(e).__name__
+                    forced_after_failure = bool(ch['g'].is_forced)
+                    m.STATE['fail_gen'] = False
+                    m.STATE['runs'].clear()
+                    again = list(ch['g'].value)
+                    ran = list(m.STATE['runs'])
+                    m.STATE['runs'].clear()
+                    fresh = list(chain()['g'].value)
+                    return dict(generator=True, first=first, raised=raised, forced_after_failure=forced_after_failure, again=again, ran=ran,
+                                fresh=fresh, ran_fresh=list(m.STATE['runs']))
                 ch = chain()
                 first = {n: t.value for n, t in ch.tasks.items()}
                 m.STATE['fail'] = True
@@ -248,6 +279,17 @@ class FailingRecompute(Suite):
     def oracle(self, case, obs):
         if 'unexpected_exception' in obs:
             return f'unexpected exception {obs["unexpected_exception"]}: {obs["text"]}'
+        if obs.get('generator'):
+            if obs['raised'] is None:
+                return f'{case}: the failing generator body raised nothing'
+            if not obs['forced_after_failure']:
+                return f'{case}: the forced task lost its mark although its recomputation failed while the items were stored'
+            if obs['ran'].count('g') != 1:
+                return (f'{case}: after the failed forced recomputation the next request ran the task {obs["ran"].count("g")} times; the '
+                        f'stored result of the first run was served instead' if not obs['ran'] else f'{case}: runs {obs["ran"]}')
+            if obs['again'] == obs['first'] or obs['fresh'] != obs['again'] or obs['ran_fresh']:
+                return f'{case}: after the successful retry the request yields {obs["again"]}, a new chain {obs["fresh"]} (runs {obs["ran_fresh"]})'
+            return None
         down = {'a': {'a', 'b', 'c'}, 'b': {'b', 'c'}, 'c': {'c'}}
         forced = set().union(*(down[n] for n in case['names']))
         fails = case['recompute'] and 'b' in forced
